@@ -114,7 +114,13 @@ for pid in ["C01", "C03", "C04", "C05", "C06", "C08", "C09", "C10", "C11", "C12"
     if pid not in CLAIMS:
         na(pid, "static rule set designed in DESIGN.md §3 but its check is not wired in yet (under construction in this session)")
 
-na("C02", "value-space equality of serialised vs. parsed messages over the whole builder API: no structural clause that is both necessary and "
+claim("C02", "writer/reader table agreement + separator and framing-header agreement over resolved AST/CFG",
+      "Partial: the two sides' token tables (methods, versions), status-code radix, header-line separators, cookie join/split separators, "
+      "framing header types and chunk-size radix agree between the serialisers and the shared parser — necessary conditions of the round "
+      "trip that are visible in code shape. Equality of whole messages over the value space of the builder/writer API is value-level and "
+      "is not decided (it needs execution or a solver: another family).",
+      TRUST, "DESIGN.md §3 C02 (revised in §6)")
+_unused = ("C02", "value-space equality of serialised vs. parsed messages over the whole builder API: no structural clause that is both necessary and "
           "not already claimed under C05/C16/C17/C18; deciding it needs execution or a solver (different family)")
 na("C20", "pure byte arithmetic (sextet packing / padding by length mod 3) with computed, not tabulated, alphabets: no table or path "
           "shape to check; goto-analyzer cannot ingest the unit (libstdc++, std::byte); needs execution or a solver")
